@@ -8,7 +8,7 @@
    the FIRST position whose token is >= t (partition_point), "clockwise" is definite on such
    rings too — members sharing a token come in the ring's stable (insertion) order.
    [nts_keys_ok s]: an NTS map has one entry per datacenter (it is a HashMap). *)
-From SV Require Import Base.Prelude Model.Ring Model.Replicas Proofs.Ring_proofs Proofs.Replicas_proofs.
+From SV Require Import Base.Prelude Model.Tablets Model.TabletSets Proofs.TabletSets_proofs Model.Ring Model.Shard Model.Replicas Proofs.Ring_proofs Proofs.Replicas_proofs.
 From Coq Require Import Permutation.
 Open Scope Z_scope.
 
@@ -172,6 +172,74 @@ Theorem C04_ordered_model : forall dcf rackf (g : ring N) pre t s dc,
   ordered_ok g t (rs_iter dcf rackf g pre t r) (fst (rs_ordered dcf rackf g pre t r)) = true.
 Proof. exact ordered_model. Qed.
 
+(* size_hint.  [it_reach ops (it_init s)] is the iterator state after any sequence of next() /
+   nth(n) on a fresh iterator, [alpha st] what it still has to yield (C04_remaining: running
+   further operations from st is running them on that list).  In every such state
+   lower <= number of remaining replicas <= upper, and the usize subtraction in the ChainedNTS
+   upper bound does not underflow. *)
+Theorem C04_remaining : forall dcf rackf (g : ring N) pre t ops st,
+  it_run dcf rackf g pre t ops st = list_run ops (alpha dcf rackf g pre t st).
+Proof. exact it_run_spec. Qed.
+
+Theorem C04_size_hint : forall dcf rackf (g : ring N) pre t s ops,
+  let st := it_reach dcf rackf g pre t ops (it_init dcf rackf g pre t s) in
+  (fst (it_size_hint dcf g st) <= List.length (alpha dcf rackf g pre t st) <= snd (it_size_hint dcf g st))%nat.
+Proof. exact size_hint_reachable. Qed.
+
+Theorem C04_size_hint_no_underflow : forall dcf rackf (g : ring N) pre t s ops m cur ridx rest,
+  it_reach dcf rackf g pre t ops (it_init dcf rackf g pre t s) = IChained m cur ridx rest ->
+  (sum_or0 m (firstn (List.length (ring_dcs dcf g) - S (List.length rest)) (ring_dcs dcf g)) + ridx <= sum_rf m)%nat.
+Proof.
+  exact (fun dcf rackf g pre t s ops m cur ridx rest E =>
+    size_hint_no_underflow dcf rackf g pre t m cur ridx rest
+      (eq_ind _ (wf dcf rackf g pre t) (reach_wf dcf rackf g pre t ops _ (init_wf dcf rackf g pre t s)) _ E)).
+Qed.
+
+(* the ring-ordered iterator before its first next() *)
+Theorem C04_size_hint_ordered : forall dcf rackf (g : ring N) pre t s dc,
+  sorted_weak g -> nts_keys_ok s ->
+  let r := replicas_for dcf rackf g pre t s dc in
+  (fst (rs_ordered_hint dcf rackf g pre t r) <= List.length (fst (rs_ordered dcf rackf g pre t r))
+   <= snd (rs_ordered_hint dcf rackf g pre t r))%nat.
+Proof. exact ordered_hint_bounds. Qed.
+
+(* with_computed_shard: every replica a view yields is paired with ScyllaDB's shard of the token
+   on that node (C11's specification) — 0 for a node without sharder — and it is below the node's
+   shard count *)
+Theorem C04_shards : forall sharderf t l n sh,
+  In (n, sh) (with_shards sharderf t l) ->
+  In n l /\ sh = spec_node_shard sharderf t n /\
+  (forall nr msb, sharderf n = Some (nr, msb) -> (0 < nr)%N -> (sh < nr)%N).
+Proof.
+  exact (fun sharderf t l n sh H =>
+    let '(conj H1 H2) := with_shards_spec sharderf t l n sh H in
+    conj H1 (conj H2 (fun nr msb E Hnr =>
+      eq_ind_r (fun x => (x < nr)%N)
+        (eq_ind (computed_shard sharderf t n) (fun x => (x < nr)%N) (computed_shard_lt sharderf t n nr msb E Hnr) _ (computed_shard_spec sharderf t n)) H2))).
+Qed.
+
+(* ---- tablet-backed replica sets (ReplicaSetInner::PlainSharded) ---------------------------
+   On a table that has tablets the set is the owning tablet's replica list (Model/Tablets.v, C15),
+   with the tablet's own shards.  Size, iteration, nth, choose and the ordered view describe that
+   list; next()/nth(n) interleaved and size_hint (exact) behave as on the list; restricting to a
+   datacenter gives the unrestricted replicas living in that datacenter, in every state the
+   tablet map can reach. *)
+Theorem C04_views_tablets : forall (s : tset) k,
+  ts_len s = List.length (ts_iter s) /\
+  ts_nth s k = nth_error (ts_iter s) k /\
+  ts_choose s k = nth_error (ts_iter s) k /\
+  ts_ordered s = ts_iter s.
+Proof. exact (fun s k => conj (ts_len_iter s) (conj (ts_nth_iter s k) (conj (ts_choose_iter s k) eq_refl))). Qed.
+
+Theorem C04_views_tablets_ops : forall (s : tset) ops idx, (idx <= List.length s)%nat ->
+  ts_run s ops idx = plist_run ops (skipn idx (ts_iter s)).
+Proof. exact ts_run_spec. Qed.
+
+Theorem C04_tablets_dc_filter : forall hist s k tok d,
+  Forall op_i64 hist -> run hist = Some s ->
+  ts_of (lookup_dc s k tok d) = restrict_dc d (ts_of (lookup s k tok)).
+Proof. exact ts_dc_filter. Qed.
+
 (* ---- non-vacuity: the 7-node, 2-datacenter ring of the repository's own tests -----------
    nodes A..G = 1..7; eu = 1, us = 2; racks r1 = 1, r2 = 2 *)
 Definition ex_dcf (n : N) : option N :=
@@ -233,6 +301,35 @@ Example C04_ex_predicates :
   ordered_ok dup_ring 10 [1%N] [3; 1]%N = false.                            (* F18 *)
 Proof. repeat split; vm_compute; reflexivity. Qed.
 
+Example C04_ex_shards :
+  let sharderf := fun n : N => match n with 1%N => Some (8%N, 0%N) | 7%N => Some (3%N, 12%N) | _ => None end in
+  with_shards sharderf 160 [1; 3; 7]%N = [(1, 4); (3, 0); (7, 0)]%N /\
+  with_shards sharderf (-4611686018427387904) [1; 7]%N = [(1, 2); (7, 0)]%N /\
+  computed_shard sharderf 3000000000000000 7%N = 1%N.
+Proof. repeat split; vm_compute; reflexivity. Qed.
+
+Example C04_ex_hints :
+  let pre := [Simple 2] in
+  let s := replicas_for ex_dcf ex_rackf ex_g pre 160 (NTS [(1%N, 3%nat); (2%N, 5%nat); (9%N, 2%nat)]) None in
+  rs_run_hints ex_dcf ex_rackf ex_g pre 160 s [INext; INth 1; INext; INth 0; INth 2; INext] =
+    [(3, 10); (2, 9); (0, 7); (2, 6); (1, 5); (0, 4); (0, 4)]%nat /\
+  rs_ordered_hint ex_dcf ex_rackf ex_g pre 160 s = (0, 10)%nat /\
+  rs_run_hints ex_dcf ex_rackf ex_g pre 160 (replicas_for ex_dcf ex_rackf ex_g pre 160 (Simple 3) (Some 1%N)) [INext; INext] =
+    [(0, 3); (0, 1); (0, 0)]%nat.
+Proof. repeat split; vm_compute; reflexivity. Qed.
+
+Example C04_ex_tablets :
+  let a := mkNode 1 0 (Some 1%N) in let b := mkNode 2 0 (Some 2%N) in let c := mkNode 3 0 (Some 1%N) in
+  let t1 := from_raw_tablet (-100) 0 [(1, 3); (2, 0)]%N [a; b; c] in
+  let t2 := from_raw_tablet 1 50 [(3, 1); (1, 2); (2, 5)]%N [a; b; c] in
+  ts_iter (ts_for [t1; t2] 7 None) = [(3, 1); (1, 2); (2, 5)]%N /\
+  ts_iter (ts_for [t1; t2] 7 (Some 1%N)) = [(3, 1); (1, 2)]%N /\
+  ts_iter (ts_for [t1; t2] 0 (Some 2%N)) = [(2, 0)]%N /\
+  ts_iter (ts_for [t1; t2] 51 None) = [] /\ ts_len (ts_for [t1; t2] (-100) None) = 2%nat /\
+  ts_choose (ts_for [t1; t2] 7 None) 2 = Some (2, 5)%N /\ ts_nth (ts_for [t1; t2] 7 None) 3 = None /\
+  map fst (ts_run (ts_for [t1; t2] 7 None) [TNext; TNth 1; TNext] 0) = [Some (3, 1); Some (2, 5); None]%N.
+Proof. repeat split; vm_compute; reflexivity. Qed.
+
 Example C04_ex_ops :
   let pre := [Simple 2] in
   let s := replicas_for ex_dcf ex_rackf ex_g pre 160 (NTS [(1%N, 3%nat); (2%N, 3%nat)]) None in
@@ -270,6 +367,14 @@ Print Assumptions C04_views_nodup.
 Print Assumptions C04_views_ordered.
 Print Assumptions C04_views_ordered_perm.
 Print Assumptions C04_views_ops.
+Print Assumptions C04_shards.
+Print Assumptions C04_views_tablets.
+Print Assumptions C04_views_tablets_ops.
+Print Assumptions C04_tablets_dc_filter.
+Print Assumptions C04_remaining.
+Print Assumptions C04_size_hint.
+Print Assumptions C04_size_hint_no_underflow.
+Print Assumptions C04_size_hint_ordered.
 Print Assumptions C04_placement_sound.
 Print Assumptions C04_placement_model.
 Print Assumptions C04_ordered_model.
